@@ -659,6 +659,10 @@ impl Future for Waiter {
                     return Poll::Ready(Err(SendPacketError::Disconnected));
                 }
                 Poll::Ready(Ok(())) => {
+                    if self.shared.is_closed() {
+                        self.rx = None;
+                        return Poll::Ready(Err(SendPacketError::Disconnected));
+                    }
                     self.rx = self.shared.wait_readiness();
                 }
             }
